@@ -377,7 +377,7 @@ def behaviours(gts=(0.1, 0.3, 1.0, 2.0), lifetimes=True, children=0,
         if draw(st.booleans()):
             b["klat"] = 0.002
         if exec_fail and draw(st.integers(0, 7)) == 0:
-            b["exec_fail"] = True
+            b["exec_fail"] = draw(st.sampled_from([True, True, 'value']))
         if children and draw(st.integers(0, 2)) == 0:
             n = draw(st.integers(1, children))
             b["children"] = [
